@@ -32,7 +32,7 @@ _LEDGER_ASSUME = [
     "goroutine interleavings inside concurrent batches are sampled, not enumerated",
     "transactions carry fixed-epoch timestamps; vertex timestamps of node-created vertices come from time.Now()",
 ]
-for _p, _q, _t in [("C01", 45, 140), ("C02", 40, 120), ("C03", 45, 140), ("C06", 45, 140), ("C09", 45, 140), ("C10", 45, 140)]:
+for _p, _q, _t in [("C01", 45, 140), ("C02", 45, 120), ("C03", 45, 140), ("C06", 45, 140), ("C09", 45, 140), ("C10", 45, 140)]:
     CHECKS[_p] = dict(
         test="Test" + _p, level="exploration",
         common=dict(shrinktime="5s", env={"GOMEMLIMIT": "3GiB"}),
